@@ -43,9 +43,22 @@ Qed.
 Lemma split_at_len k (a r : bytes) : length a = k -> split_at k (a ++ r) = Some (a, r).
 Proof. intros <-. apply split_at_app. Qed.
 
+Lemma shortN_spec {A} n (l : list A) : shortN n l = (N.of_nat (length l) <? n).
+Proof.
+  revert n; induction l as [|a l IH]; intros n.
+  - destruct n; cbn [shortN length N.of_nat]; [reflexivity|]. symmetry. apply N.ltb_lt. lia.
+  - destruct n as [|p]; [cbn [shortN]; symmetry; apply N.ltb_ge; lia|].
+    cbn [shortN]. rewrite IH. cbn [length]. rewrite Nat2N.inj_succ.
+    destruct (N.ltb_spec (N.of_nat (length l)) (N.pred (N.pos p)));
+      destruct (N.ltb_spec (N.succ (N.of_nat (length l))) (N.pos p)); try reflexivity; lia.
+Qed.
+
+Lemma frev_eq {A} (l : list A) : frev l = rev l.
+Proof. unfold frev. symmetry. apply rev_alt. Qed.
+
 Lemma split_atN_app (a r : bytes) : split_atN (N.of_nat (length a)) (a ++ r) = Some (a, r).
 Proof.
-  unfold split_atN. rewrite app_length, Nat2N.inj_add.
+  unfold split_atN. rewrite shortN_spec, app_length, Nat2N.inj_add.
   destruct (N.ltb_spec (N.of_nat (length a) + N.of_nat (length r)) (N.of_nat (length a))) as [H|H]; [lia|].
   rewrite Nat2N.id. apply split_at_app.
 Qed.
@@ -206,7 +219,7 @@ Proof.
   - cbn in H. inversion H; subst. reflexivity.
   - cbn [length N.of_nat]. unfold dec_count. rewrite dec_pos_nat, SuccNat2Pos.id_succ.
     change (S (length t)) with (length (v :: t)).
-    rewrite (list_law_nat E D HL _ _ _ _ H). rewrite app_nil_r, rev_involutive. reflexivity.
+    rewrite (list_law_nat E D HL _ _ _ _ H). rewrite frev_eq, app_nil_r, rev_involutive. reflexivity.
 Qed.
 
 (** * field sequences incl. mode-conditional fields *)
